@@ -2,7 +2,7 @@
 """Writes MANIFEST.json from the table below (one place to keep it valid)."""
 import json, subprocess
 
-HOOK_COMMITS = ["f1f1242", "12326ae"]
+HOOK_COMMITS = ["f1f1242", "12326ae", "5c6d32d"]
 
 CHECKS = {
  "C01": ("5.1", "Generated source models (typed expression grammar) compiled by rooc and judged at exact rational test points: source-feasible iff extendable over the auxiliaries, decided by an exact DFS + bound-propagation + Fourier-Motzkin oracle. Finds defects in rule interplay that hand-written matrices miss; never proves absence.",
@@ -56,6 +56,15 @@ CHECKS = {
  "C08": ("5.8", "Generated models with edge features (aux-like names, duplicate / suffix-like constraint names, infinite constants, unused declarations); every compiled model checked against the well-formedness invariant list, MissingFiniteBounds errors checked for content.",
          "Trusted: invariant checker written from the property text; guessed big-M constants are caught by C01's far test points (2^21, 2^34).",
          "property-based testing: generated edge-case models + invariant checking"),
+ "C06": ("5.6", "Generated data-driven programs (sums/products/min/max over ranges, arrays, matrices, graphs, enumerate, tuple destructuring, indexed declarations, nested iterations) paired with the harness's own unrolled version; both must compile to the same linear model with the expected instance names.",
+         "Trusted: the harness's reference unroller (written from the documentation); comparison of rooc's own LinearModel values.",
+         "property-based testing: differential against a reference unrolling of data-driven constructs"),
+ "C18": ("5.18", "Inputs up to 4 KiB from grammar-derived programs, token mutations of them (numeric extremes in literal, index and range positions, deep nesting, deletions, duplications, swaps), byte noise and bracket soup are run through every public stage and every error rendering inside a worker process with an address-space limit and a watchdog; a panic, an abort, a stack overflow or silence is a violation.",
+         "Trusted: termination is judged against a 20 s budget; rooc is built with overflow checks; two recorded findings are recognised through the guarded range observer at the call site that writes ranges out.",
+         "property-based testing / fuzzing: generated and mutated inputs in a sandboxed worker, crash and hang oracle"),
+ "C19": ("5.19", "Generated well-typed programs and single type-breaking mutations of them: what type_check accepts must transform without a type-kind error, and what it rejects is checked to be rejected by transform or to be a genuine static error.",
+         "Trusted: the classification of transform errors into type-kind errors and data errors (written from the error enum).",
+         "property-based testing: generated programs + mutation, checker/transformer agreement"),
 }
 
 NOT_YET = {}
